@@ -881,10 +881,19 @@ def r1_entry_ctor(program, rep):
         raise AnalysisError("RoutingTableEntry.__new__: construction of the "
                             "tuple")
     rn = T.cfg.node_of(rets[0])
-    args = [plain(T.term(a, rn)) for a in rets[0].value.args]
+    raw = [T.term(a, rn) for a in rets[0].value.args]
+    args = [plain(a) for a in raw]
     if len(args) != 5:
         raise AnalysisError("RoutingTableEntry.__new__: construction of the "
                             "tuple")
+    # a copy made here must not be changed before it is stored
+    from ..terms import method_calls as _mc
+    from ..dataflow import MUTATORS as _MUT
+    changed = {}
+    for n_, c_, recv_, a_ in _mc(T, sorted(_MUT)):
+        for k, r_ in enumerate(raw):
+            if r_[0] == "new" and recv_ == r_:
+                changed[k] = c_
 
     def same_values(t, p):
         P = ("param", p)
@@ -892,14 +901,18 @@ def r1_entry_ctor(program, rep):
             ("global", "set"), ("global", "frozenset"), ("global", "tuple"),
             ("global", "list")) and t[2] == (P,))
     for k, nm in enumerate(ps[1:], 1):
-        rep.check(same_values(args[k], nm), "C10-R1", qual(fn),
+        rep.check(same_values(args[k], nm) and k not in changed, "C10-R1",
+                  qual(fn),
                   "the entry's %s is the %s it was constructed with" % (
                       nm, nm), construct="entry field %s" % nm,
                   node=rets[0],
                   fail="RoutingTableEntry stores %s as its %s, not the "
                        "values it was given: entries built for a table "
                        "(e.g. with a None source next to a link) are "
-                       "altered on the way" % (show(args[k])[:60], nm))
+                       "altered on the way" % (
+                           show(args[k])[:60] + (
+                               " changed by %s" % unparse(changed[k])
+                               if k in changed else ""), nm))
 
 
 def check(program, rep):
